@@ -30,7 +30,7 @@ EXHAUSTIVE_SUBDOMAINS = []
 ASSUMPTIONS = ["positions are judged only for the simulated (cleanly encoded) aircraft; noise addresses are judged for robustness, "
                "listing and the Comm-B rule only", "between 59 s and 61 s of silence neither presence nor absence is judged",
                "longitude compared modulo 360; error measured as great-circle angle"]
-REQUIRED = ["calls", "receiver_location_given_as_strings", "landed_at_the_receivers_airfield_during_a_position_outage", "same_squitter_string_repeated", "aircraft_exactly_over_pole_equator_antimeridian", "idle_call_with_no_messages", "batch_processed_at_tnow_exactly_zero", "transitions", "branch_ref", "branch_global", "branch_none", "evicted", "reappeared", "commb_attached", "commb_unknown_ignored",
+REQUIRED = ["calls", "run_loop_published_an_empty_table_after_everybody_timed_out", "receiver_location_given_as_strings", "landed_at_the_receivers_airfield_during_a_position_outage", "same_squitter_string_repeated", "aircraft_exactly_over_pole_equator_antimeridian", "idle_call_with_no_messages", "batch_processed_at_tnow_exactly_zero", "transitions", "branch_ref", "branch_global", "branch_none", "evicted", "reappeared", "commb_attached", "commb_unknown_ignored",
             "surface_update", "airborne_update", "case_compare", "run_loop", "gap_lt10", "gap_10_180", "gap_gt180", "cross_antimeridian",
             "cross_equator", "cross_nl", "second_tracker_alive"]
 
@@ -600,6 +600,9 @@ def m_runloop(ctx, case):
         batches.append({"adsb_ts": [e[0] for e in b if e[1] == "adsb"], "adsb_msg": [e[2] for e in b if e[1] == "adsb"],
                         "commb_ts": [e[0] for e in b if e[1] == "commb"], "commb_msg": [e[2] for e in b if e[1] == "commb"]})
     batches = batches[:40]
+    # ... and at the end a quiet receiver: one batch without any message, two minutes after the last one (the source hands over what
+    # it has, even nothing) - everybody has timed out by then, and an EMPTY table is a table the consumer has to be told about
+    batches.append({"adsb_ts": [], "adsb_msg": [], "commb_ts": [], "commb_msg": []})
 
     class RawOut:
         def __init__(self):
@@ -623,6 +626,7 @@ def m_runloop(ctx, case):
 
         def send(self, acs):
             self.n += 1
+            self.last = set(acs.keys())      # what a real pipe would pickle at this moment
 
     class Q:
         def __init__(self):
@@ -641,8 +645,10 @@ def m_runloop(ctx, case):
         seen.append((tuple(adsb_msg), tuple(commb_msg), tuple(adsb_ts), tuple(commb_ts)))
         # the live loop stamps with wall-clock time; use the batch's own time so that histories stay meaningful
         ts = list(adsb_ts) + list(commb_ts)
-        return orig(adsb_ts, adsb_msg, commb_ts, commb_msg, tnow=max(ts) if ts else 0)
+        clock[0] = max(ts) if ts else clock[0] + 120.0
+        return orig(adsb_ts, adsb_msg, commb_ts, commb_msg, tnow=clock[0])
 
+    clock = [min([e[0] for e in ev] or [0.0])]
     d.process_raw = spy
     q = Q()
     acin = AcIn()
@@ -667,6 +673,11 @@ def m_runloop(ctx, case):
                       fed=repr(exp[k_][2:])[:160] if k_ < len(exp) else None)
     elif acin.n == 0:
         ctx.violation("decode-run-never-publishes")
+    elif getattr(acin, "last", None) != set(d.acs.keys()):
+        # the loop publishes after every round; when it has come to rest the consumer's copy is the tracker's table
+        ctx.violation("published-table-differs-from-the-trackers-table-at-rest", published=sorted(acin.last)[:6], table=sorted(d.acs.keys())[:6])
+    elif not d.acs:
+        ctx.hit("run_loop_published_an_empty_table_after_everybody_timed_out")
     ctx.hit("run_loop")
     ctx.nontrivial(("run", case["hseed"]))
 
